@@ -38,6 +38,27 @@ def plan(tier, seed):
 
 # -- pairs ----------------------------------------------------------------------------------------
 
+def rename_some_layers(rng, geo, desc, key, p=0.5):
+    """Gives the surface layer and/or a subsurface layer another (convention-length) name through rename_layer(), as
+    geometries taken from files have them (shipped g1-g3 call their surface layer something else than the default)."""
+    if rng.random() > p:
+        return
+    pool = {0: ['97', '98', '99'], 1: ['zzz', 'zzy', 'zzx'], 2: ['zz', 'zy', 'zx']}[geo.convention]
+    pool = [n for n in pool if n not in geo.layer]
+    which = rng.choice(['surface', 'surface', 'subsurface', 'both'])
+    lays = []
+    if which in ('surface', 'both'):
+        lays.append(geo.layerlist[0])
+    if which in ('subsurface', 'both') and geo.num_layers > 1:
+        lays.append(rng.choice(geo.layerlist[1:]))
+    pairs = [(l.name, pool[i]) for i, l in enumerate(lays)]
+    if len(pairs) == 1:
+        geo.rename_layer(pairs[0][0], pairs[0][1])
+    else:
+        geo.rename_layer([a for a, _ in pairs], [b for _, b in pairs])
+    desc[key] = pairs
+
+
 def make_pair(rng, k):
     mg = R.mulgrids
     satm, tatm = k % 3, (k // 3) % 3
@@ -74,6 +95,7 @@ def make_pair(rng, k):
         # leaves stale in the source is then used by the mapping)
         if S.num_layers > 2:
             desc['surf_s'] = geos.set_surfaces(S, rng, rng.choice(['inside', 'boundary', 'mixed']), frac=0.7)
+        rename_some_layers(rng, S, desc, 'layers_renamed_s', 0.6)
         if kind == 'source-layer-refined':
             lays = rng.sample(S.layerlist[1:], rng.randint(1, S.num_layers - 1))
             if S.convention == 0 and S.num_layers + len(lays) * 2 > 90:
@@ -95,6 +117,7 @@ def make_pair(rng, k):
             desc['surf_t'] = geos.set_surfaces(T, rng, rng.choice(['inside', 'mixed']), frac=0.5)
         return S, T, desc
     if kind in ('coarse-fine', 'fine-coarse', 'shifted', 'resurfaced', 'same'):
+        rename_some_layers(rng, S, desc, 'layers_renamed_s', 0.3)
         if kind == 'same':
             dxt, dyt, dzt = dxs, dys, dzs
         else:
@@ -115,6 +138,7 @@ def make_pair(rng, k):
         desc['refined'] = [c.name for c in cols]
     else:
         T = mg.mulgrid().rectangular(dxs, dys, dzs, convention=conv_t, atmos_type=tatm, origin=org)
+        rename_some_layers(rng, T, desc, 'layers_renamed_t', 0.6)
         lays = rng.sample(T.layerlist[1:], rng.randint(1, T.num_layers - 1))
         if T.convention == 0 and T.num_layers + len(lays) * 2 > 90:
             lays = lays[:1]
@@ -426,6 +450,7 @@ def run_shard(ctx, spec):
         ctx.count('pairs')
         ctx.see('atmosphere_combination', combo)
         ctx.see('pair_kind', desc['kind'])
+        ctx.see('layers_renamed', 'source' if desc.get('layers_renamed_s') else ('target' if desc.get('layers_renamed_t') else 'no'))
         check_mapping(ctx, S, T, case, combo)
         own = expected_mapping(ctx, S, T)
         if S.atmosphere_type == 2 and T.atmosphere_type != 2:
